@@ -121,7 +121,8 @@ func (def *sliceAsList) findByKey(m meta.Meta, target []val.Value, keyMeta []met
 			return notfound, empty, err
 		}
 		for i, v := range candidateKey {
-			if v == nil || target[i] == nil || v.Value() != target[i].Value() {
+			// (a binary key is a []byte, which == cannot compare)
+			if v == nil || target[i] == nil || !reflect.DeepEqual(v.Value(), target[i].Value()) {
 				break
 			}
 			isLastKey := i == len(keyMeta)-1
